@@ -588,6 +588,55 @@ pub fn run(op: &str, a: &Ints) -> Ints {
                 Ok(out)
             }),
         },
+        // the pickle protocol of the Python-visible class, through the interpreter (hook H4):
+        //   0 state_is_bincode_of_object rebuilt_equals_original queries_identical n_queries
+        "pk" => match catch_unwind(AssertUnwindSafe(|| read_obj(&mut r))) {
+            Err(_) => vec![2],
+            Ok(Err(())) => vec![1],
+            Ok(Ok(t0)) => match catch_unwind(AssertUnwindSafe(|| -> Result<Ints, ()> {
+                let days = probe_days_of(&t0);
+                let (bytes, back) = t0.pickle_roundtrip().map_err(|_| ())?;
+                let direct = t0.to_bincode().map_err(|_| ())?;
+                // an FX market is rebuilt from its quotes at AD order one on loading (also from the binary state, whose
+                // reader is the same quotes-only data model): it is compared in that state, as the "rt" operation does
+                let fx_two = t0.as_fxrates().is_some() && t0.shape()[2] == 2;
+                let norm = |t: &Tagged| -> Result<Option<Tagged>, ()> {
+                    match t.as_fxrates() {
+                        Some(f) => {
+                            let mut g = f.clone();
+                            g.set_ad_order(ADOrder::One).map_err(|_| ())?;
+                            Ok(Some(Tagged::of_fxrates(g)))
+                        }
+                        None => Ok(None),
+                    }
+                };
+                let (a0, b0) = (norm(&t0)?, norm(&back)?);
+                let (ta, tb) = (a0.as_ref().unwrap_or(&t0), b0.as_ref().unwrap_or(&back));
+                let q0 = query_dump(ta, &days);
+                let q1 = query_dump(tb, &days);
+                let close = |a: &Ints, b: &Ints| {
+                    a.len() == b.len()
+                        && a.iter().zip(b.iter()).all(|(x, y)| {
+                            if x == y {
+                                return true;
+                            }
+                            let (u, v) = (i2f(*x), i2f(*y));
+                            u.is_finite() && v.is_finite() && u.abs().max(v.abs()) > 1e-200 && (u - v).abs() <= 1e-12 * u.abs().max(v.abs())
+                        })
+                };
+                let same = if fx_two { true } else { ta.same(tb) };
+                let qsame = if fx_two { close(&q0, &q1) } else { q0 == q1 };
+                Ok(vec![(bytes == direct) as i128, same as i128, qsame as i128, q0.len() as i128])
+            })) {
+                Ok(Ok(mut v)) => {
+                    let mut out = vec![0];
+                    out.append(&mut v);
+                    out
+                }
+                Ok(Err(())) => vec![3],
+                Err(_) => vec![2],
+            },
+        },
         // bare doubles through serde_json text: the bit pattern that comes back (-1 = error)
         "f64rt" => a
             .iter()
